@@ -8,6 +8,8 @@ import sys
 from pathlib import Path
 
 copy = Path(sys.argv[1])
+# optional: --update <glob> [<glob> ...]  : agent-owned files to overwrite in /verif with the copy's version
+update_globs = sys.argv[sys.argv.index("--update") + 1:] if "--update" in sys.argv else []
 verif = Path("/verif")
 skip_dirs = {".lake", "__pycache__", "replay", "evidence", ".git", "scratch"}
 special = {"lean/Deepali/Drv/All.lean", "lean/Deepali.lean", "known_findings.json", "MANIFEST.json",
@@ -25,7 +27,12 @@ for f in sorted(copy.rglob("*")):
         shutil.copy2(f, tgt)
         new.append(rel)
     elif not filecmp.cmp(f, tgt, shallow=False):
-        differ.append(rel)
+        import fnmatch
+        if any(fnmatch.fnmatch(rel, g) for g in update_globs):
+            shutil.copy2(f, tgt)
+            new.append(rel + "  (updated)")
+        else:
+            differ.append(rel)
 print("NEW:", *new, sep="\n  ")
 print("DIFFER (not copied):", *differ, sep="\n  ")
 # known findings
@@ -34,9 +41,14 @@ have = {(e["property"], e["key"]) for e in kf["findings"]}
 ck = copy / "known_findings.json"
 if ck.exists():
     added = 0
+    mine = {(e["property"], e["key"]): e for e in kf["findings"]}
     for e in json.loads(ck.read_text()).get("findings", []):
         if (e["property"], e["key"]) not in have:
             kf["findings"].append(e)
+            added += 1
+        elif update_globs and e.get("status") != mine[(e["property"], e["key"])].get("status") \
+                and any(e["property"].lower() in g.lower() for g in update_globs):
+            mine[(e["property"], e["key"])].update(e)
             added += 1
     (verif / "known_findings.json").write_text(json.dumps(kf, indent=1) + "\n")
     print("known findings added:", added)
